@@ -65,7 +65,9 @@ func processFile(filePath string, version string, year string) error {
 // in a more elegant way. Right now we just match strings.
 func updateRules(version string, year string, contents []byte) ([]byte, error) {
 	scanner := utils.NewLineScanner(bytes.NewReader(contents))
-	scanner.Split(bufio.ScanLines)
+	// keep the line endings of the file, CRLF files stay CRLF files
+	scanner.Split(utils.ScanLinesKeepCR)
+	lineEnding := "\n"
 	output := new(bytes.Buffer)
 	writer := bufio.NewWriter(output)
 	replaceVersion := fmt.Sprintf("${1}%s", version)
@@ -77,6 +79,11 @@ func updateRules(version string, year string, contents []byte) ([]byte, error) {
 	replaceSecComponentSignature := fmt.Sprintf("${1}%s", version)
 	for scanner.Scan() {
 		line := scanner.Text()
+		lineEnding = "\n"
+		if strings.HasSuffix(line, "\r") {
+			line = strings.TrimSuffix(line, "\r")
+			lineEnding = "\r\n"
+		}
 		line = regex.CRSVersionRegex.ReplaceAllString(line, replaceVersion)
 		line = regex.ShortCRSVersionRegex.ReplaceAllString(line, replaceShortVersion)
 		line = regex.CRSCopyrightYearRegex.ReplaceAllString(line, replaceYear)
@@ -85,7 +92,7 @@ func updateRules(version string, year string, contents []byte) ([]byte, error) {
 		if _, err := writer.WriteString(line); err != nil {
 			return nil, err
 		}
-		if _, err := writer.WriteRune('\n'); err != nil {
+		if _, err := writer.WriteString(lineEnding); err != nil {
 			return nil, err
 		}
 	}
